@@ -9,7 +9,7 @@ theorem isAsciiDigit_eq (c : Char) : isAsciiDigit c = c.isDigit := by
   unfold isAsciiDigit Char.isDigit
   simp only [Char.le_def, UInt32.le_iff_toNat_le]
   rw [Bool.eq_iff_iff]
-  simp [UInt32.le_iff_toNat_le]
+  simp
 
 theorem not_space_of_digit (c : Char) (h : c.isDigit = true) : isPySpace c = false := by
   by_contra hs
@@ -105,7 +105,33 @@ theorem parseInt_digits (neg : Bool) (sp ds : Str) (hsp : ∀ c ∈ sp, isPySpac
       simp only [if_true, h1, h2]
       rfl
   rw [parseInt_unfold]
-  simp only [hsplit, hfilter, hall, hhead, hgl, hinf, hlen']
+  simp only [hsplit, hfilter, hall, hinf, hlen']
   simp
+  exact ⟨hnu d (by simp), hgl⟩
+
+
+theorem pyStrInt_eq (n : Int) :
+    pyStrInt n = if 0 ≤ n then Nat.toDigits 10 n.toNat else '-' :: Nat.toDigits 10 (-n).toNat := by
+  unfold pyStrInt
+  rw [Int.toString_eq_repr, Int.repr_eq_if]
+  split <;> simp
+
+/-- `int(str(n)) == n`, also with leading blanks (right-aligned fields) -/
+theorem parseInt_pyStrInt (sp : Str) (hsp : ∀ c ∈ sp, isPySpace c = true) (n : Int) (hn : n.natAbs < 10 ^ 4300) :
+    parseInt (sp ++ pyStrInt n) = .ok n := by
+  rw [pyStrInt_eq]
+  by_cases h : 0 ≤ n
+  · have := parseInt_digits false sp (Nat.toDigits 10 n.toNat) hsp Nat.toDigits_ne_nil
+      (fun c hc => Nat.isDigit_of_mem_toDigits (by decide) (by decide) hc)
+      ((Nat.length_toDigits_le_iff (by decide) (by decide)).2 (by omega))
+    simp only [Bool.false_eq_true, if_false, digitsToNat_eq, Nat.ofDigitChars_ten_toDigits] at this
+    rw [if_pos h, this]
+    congr 1; omega
+  · have := parseInt_digits true sp (Nat.toDigits 10 (-n).toNat) hsp Nat.toDigits_ne_nil
+      (fun c hc => Nat.isDigit_of_mem_toDigits (by decide) (by decide) hc)
+      ((Nat.length_toDigits_le_iff (by decide) (by decide)).2 (by omega))
+    simp only [if_true, digitsToNat_eq, Nat.ofDigitChars_ten_toDigits] at this
+    rw [if_neg h, this]
+    congr 1; omega
 
 end Contracts.V2000
